@@ -76,9 +76,9 @@ HARNESSES = [
     dict(name="read_inode", file="read_inode.c", label="proved", timeout=170,
          malloc_fail=True, flags=_UF, cases=_inode_cases()),
     dict(name="read_inode_file", file="read_inode.c", label="proved", timeout=170,
-         malloc_fail=True, flags=_UF, loops=["read_inode_file"], defines={"ITYPE": 2}),
+         malloc_fail=True, flags=_UF, loops=["read_inode_file"], defines={"ITYPE": 2, "INO_LOOP_HAVOC": 1}),
     dict(name="read_inode_file_ext", file="read_inode.c", label="proved", timeout=170,
-         malloc_fail=True, flags=_UF, loops=["read_inode_file_ext"], defines={"ITYPE": 9}),
+         malloc_fail=True, flags=_UF, loops=["read_inode_file_ext"], defines={"ITYPE": 9, "INO_LOOP_HAVOC": 1}),
     dict(name="read_inode_dir_ext", file="read_inode.c",
          label="bounded(dir index entries <= 3)", timeout=170,
          malloc_fail=True, flags=_UF, cases=_dir_ext_cases()),
